@@ -235,6 +235,57 @@ type aliasState struct {
 	*hist.State
 	seq  int
 	ring int
+	// firstParent: the container a container was below when it was first seen (after the step that created
+	// or first attached it). This is what the library keeps as the config's parent (its context is set when
+	// it is first attached and neither updated nor cleared later: finding D14). Only used to construct away
+	// the histories in which these stale links form a ring, while D14 is open.
+	firstParent map[*model.Node]*model.Node
+}
+
+func (s *aliasState) noteParents() {
+	var rec func(n *model.Node)
+	rec = func(n *model.Node) {
+		if n.Kind != "cont" {
+			return
+		}
+		for _, k := range n.SortedKeys() {
+			if c := n.D[k]; c.Kind == "cont" {
+				if _, ok := s.firstParent[c]; !ok {
+					s.firstParent[c] = n
+				}
+				rec(c)
+			}
+		}
+		for _, c := range n.A {
+			if c.Kind == "cont" {
+				if _, ok := s.firstParent[c]; !ok {
+					s.firstParent[c] = n
+				}
+				rec(c)
+			}
+		}
+	}
+	rec(s.Root.M)
+	for _, h := range s.Pool {
+		rec(h.M)
+	}
+}
+
+// staleRing: src has never been attached and one of the nodes is, by the parent links the library keeps
+// (firstParent), below src: attaching src there closes a ring of parent links.
+func (s *aliasState) staleRing(src *model.Node, nodes []*model.Node) bool {
+	if _, ok := s.firstParent[src]; ok {
+		return false
+	}
+	for _, n := range nodes {
+		for k := 0; n != nil && k < 1000; k++ {
+			if n == src {
+				return true
+			}
+			n = s.firstParent[n]
+		}
+	}
+	return false
 }
 
 func (s *aliasState) pool(h hist.Handle) {
@@ -301,7 +352,7 @@ func runAlias(c aliasCase, r *runlog.R) error {
 		}
 		hs.Opts = []ucfg.Option{ucfg.PathSep(hs.Sep)}
 	}
-	st := &aliasState{State: hs}
+	st := &aliasState{State: hs, firstParent: map[*model.Node]*model.Node{}}
 	hs.Root = hist.Handle{C: ucfg.New(), M: model.NewCont()}
 	if c.Init != nil {
 		cfg, m, ok, err := aliasTree(c.Init, hs)
@@ -316,6 +367,7 @@ func runAlias(c aliasCase, r *runlog.R) error {
 	}
 	nt, wroteShared, twice := false, false, false
 	for i, op := range c.Ops {
+		st.noteParents()
 		skip := func(why string) { r.Class("skipped: " + why) }
 		if !hist.ValidAddr(op.Name, op.Idx) && op.Kind != aNew {
 			skip("address outside the domain")
@@ -470,10 +522,12 @@ func runAlias(c aliasCase, r *runlog.R) error {
 			}
 			// a tree stays a tree: the config must not end up below itself
 			cyc := false
+			var walk []*model.Node
 			for cur, k := h.M, 0; cur != nil && cur.Kind == "cont"; k++ {
 				if src.M.Contains(cur) {
 					cyc = true
 				}
+				walk = append(walk, cur)
 				if k >= len(segs)-1 {
 					break
 				}
@@ -485,6 +539,16 @@ func runAlias(c aliasCase, r *runlog.R) error {
 			}
 			if cyc {
 				skip("attach would put a config below itself")
+				continue
+			}
+			if runlog.IsOpen("D14") && st.staleRing(src.M, walk) {
+				// The tree is a proper tree, but the library's parent links are not: a config keeps the parent
+				// it was FIRST attached to, also after it was removed from there (D14: the context is neither
+				// updated nor cleared). Attaching a never attached config X below a config that was once
+				// attached below X closes a ring of parent links, and the next failing read never returns
+				// (the path of the error message is built by walking the parent links).
+				r.Excluded("D14")
+				skip("attach would close a ring of stale parent links (D14)")
 				continue
 			}
 			before := addresses(hs.Root.M)[src.M]
